@@ -109,6 +109,7 @@ class SetObj:
     frozen: bool = False
     enum: Optional[SV] = None  # a duplicate-free symbolic list known to enumerate exactly this set
     parent: Any = None  # (dict heap id, key value): this set is the bucket of a symbolic defaultdict(set)
+    of_list: Any = None  # (list term, element type): this set is set(<that symbolic list>), not modified since
 
 
 @dataclass(frozen=True)
